@@ -102,7 +102,13 @@ impl Partition {
         &self,
         count: u32,
     ) -> Result<Vec<Arc<RetainedMessage>>, IggyError> {
-        self.get_messages_by_offset(0, count).await
+        // The oldest segments might have been deleted, the first message is the one the first segment starts with.
+        let first_offset = self
+            .segments
+            .first()
+            .map(|segment| segment.start_offset)
+            .unwrap_or(0);
+        self.get_messages_by_offset(first_offset, count).await
     }
 
     // Retrieves the last messages (up to a specified count).
